@@ -102,6 +102,42 @@ pub fn compute(root: &Path) -> BTreeMap<String, String> {
     out
 }
 
+/// Work on *other* inputs through the same entry points, so that the battery that follows does not
+/// start from a fresh process: whatever the library remembers between calls (a cache, a latched
+/// clock or directory, a lazily built table) has been filled by something else first.
+pub fn warm_up(root: &Path) {
+    let scratch = util::fresh_dir("envprobe-warmup");
+    let _ = guard(|| Json::canonicalize(&json!({"z": [3, 2, 1], "é": "other", "a": {"b": null}})));
+    let _ = guard(|| Json::canonicalize_for_signing(&json!(["other", {"k": "v\n"}])));
+    let _ = guard(|| DSSEVersion::V1.pack(b"other payload", "other/type".to_string()));
+    let _ = guard(|| DSSEVersion::V1.unpack(b"DSSEv1 1 x 1 y").map_err(|e| format!("{e:?}")));
+    let (o2, f2) = (keys::get("ed5"), keys::get("ed3"));
+    for k in [keys::get("rsa256b"), keys::get("ec2"), o2] {
+        let _ = serde_json::to_string(k.public()).ok().and_then(|t| serde_json::from_str::<PublicKey>(&t).ok());
+    }
+    // an expired layout, a layout that verifies, a layout whose step lacks its link, a delegated one:
+    // other keys, other names, other digests than the battery's
+    let expired = world::sign_layout(world::layout(vec![], vec![], &[], world::now() - chrono::Duration::days(2)), &[o2]);
+    let _ = guard(|| in_toto::verifylib::in_toto_verify(&expired, world::owner_map(&[o2]), scratch.to_str().unwrap(), None).is_ok());
+    let ok = world::sign_layout(world::layout(vec![world::step("s", 1, &[f2])], vec![], &[f2], world::far_future()), &[o2]);
+    world::write(&scratch, &world::link_file("s", f2), &world::block_text(&world::sign_link(world::link("s", world::arts(&[("m", 9)]), world::arts(&[("p", 8), ("q", 7)])), &[f2])));
+    let _ = guard(|| in_toto::verifylib::in_toto_verify(&ok, world::owner_map(&[o2]), scratch.to_str().unwrap(), Some("warm")).is_ok());
+    let missing = world::sign_layout(world::layout(vec![world::step("in", 1, &[f2])], vec![], &[f2], world::far_future()), &[o2]);
+    let _ = guard(|| in_toto::verifylib::in_toto_verify(&missing, world::owner_map(&[o2]), scratch.to_str().unwrap(), None).is_ok());
+    // the battery's own delegated tree, verified from the wrong end (inner layout as if it were the root)
+    if let Ok(t) = std::fs::read_to_string(root.join("delegated-ok/links").join(world::link_file("s", keys::get("ed1")))) {
+        if let Ok(mb) = serde_json::from_str::<in_toto::models::Metablock>(&t) {
+            let _ = guard(|| in_toto::verifylib::in_toto_verify(&mb, world::owner_map(&[keys::get("ed1")]), root.join("delegated-links-misfiled-in-parent/links").to_str().unwrap(), None).is_ok());
+        }
+    }
+    let l = world::link("other", world::arts(&[("/abs/x", 5)]), world::arts(&[("./rel/../y", 6)]));
+    let _ = guard(|| world::block_text(&world::sign_link(l.clone(), &[f2])));
+    std::fs::write(scratch.join("w"), "warm").ok();
+    let ss = scratch.to_string_lossy().to_string();
+    let _ = guard(|| in_toto::runlib::record_artifacts(&[&ss], None, None).is_ok());
+    let _ = guard(|| in_toto::runlib::record_artifacts(&[&ss], Some(&["sha512"]), Some(&[&ss])).is_ok());
+}
+
 /// Parent side: build the fixture directories once.
 pub fn prepare(root: &Path) {
     let owner = keys::get("ed6");
@@ -238,6 +274,10 @@ pub fn menu() -> (Vec<EnvCase>, Vec<String>, Vec<String>) {
     let mut m = vec![];
     let mk = |name: &str, vars: &[(&str, &str)], unset: &[&str], cwd: &str| EnvCase { name: name.to_string(), vars: vars.iter().map(|(k, v)| (k.to_string(), v.to_string())).collect(), unset: unset.iter().map(|s| s.to_string()).collect(), cwd: cwd.to_string() };
     m.push(mk("baseline", &[], &[], ""));
+    // not an environment but a history: the child first works on other inputs, then computes the
+    // battery; and computes it a second time (the answer of the second pass is reported)
+    m.push(mk("after other work in the same process", &[("ITV_PROBE_HISTORY", "warm")], &[], ""));
+    m.push(mk("second pass in the same process", &[("ITV_PROBE_HISTORY", "twice")], &[], ""));
     for (n, v) in [("C", "C"), ("POSIX", "POSIX"), ("latin1", "en_US.ISO-8859-1"), ("utf8", "en_US.UTF-8"), ("turkish", "tr_TR.UTF-8")] {
         m.push(mk(&format!("LANG={n}"), &[("LANG", v)], &["LC_ALL", "LC_CTYPE"], ""));
         m.push(mk(&format!("LC_ALL={n}"), &[("LC_ALL", v), ("LC_CTYPE", v), ("LANG", v)], &[], ""));
@@ -364,6 +404,6 @@ pub fn judge(acc: &mut crate::report::Acc, prefix: &str, extra: &mut serde_json:
     extra.insert(
         "environment_probe".into(),
         json!({"environments": r.environments, "items_of_this_property": n_items, "variables_read_by_the_library_sources": r.env_reads, "reads_with_computed_names": r.computed_env_reads,
-               "menu": "locale variables (C, POSIX, Latin-1, UTF-8, Turkish) via LANG and LC_ALL; 4 time zones; HOME/PATH/USER/TMPDIR unset; 5 working directories (incl. the link directory and one holding misfiled inner links); every variable the library sources read x 4 values; 6 variable names of or like the reference implementation"}),
+               "menu": "locale variables (C, POSIX, Latin-1, UTF-8, Turkish) via LANG and LC_ALL; 4 time zones; HOME/PATH/USER/TMPDIR unset; 5 working directories (incl. the link directory and one holding misfiled inner links); every variable the library sources read x 4 values; 6 variable names of or like the reference implementation; two call histories (the battery after other work through the same entry points in the same process; the battery a second time in one process)"}),
     );
 }
